@@ -1,5 +1,27 @@
 import Spq.Drv.Util
-/- driver family stub (filled in by the owner of this family) -/
+import Spq.Caches
+import Gen.Caches
+/- driver family `ca`:   ca prog <function> | m=8,divisor=4607182418800017408 ; m=16,… ; …
+   answer: one bit per call — 1 iff the model says a table is (re)built by that call.
+   The cache structure of <function> is the one extracted from the C source (Gen.Caches). -/
 namespace Spq.Drv
-def handleCa (_args : List String) : Option String := none
+open Spq
+
+def parseCall (s : String) : Caches.Call :=
+  (s.splitOn ",").filterMap fun kv =>
+    match kv.splitOn "=" with
+    | [k, v] => some (k, parseInt v)
+    | _ => none
+
+def handleCa (args : List String) : Option String :=
+  match args with
+  | "prog" :: fn :: "|" :: rest =>
+    match Gen.Caches.rows.find? (fun r => r.name == fn) with
+    | none => some "unknown-cache"
+    | some r =>
+      let spec : Caches.Spec := { slotByM := r.slotByM, guard := r.guard, initArgs := r.initArgs }
+      let calls := (rest.filter (· != ";")).map parseCall
+      some (" ".intercalate ((Caches.rebuilds spec Caches.empty calls).map fun b => if b then "1" else "0"))
+  | ["nop"] => some "nop"
+  | _ => none
 end Spq.Drv
